@@ -166,7 +166,7 @@ def check(run):
     run.tlc_mc("GovToken.tla", "MC_GovToken.cfg" if quick else "MC_GovToken_thorough.cfg", timeout=1500)
 
     # (number of behaviours, calls per behaviour, MaxProps)
-    plans = [(160, 14, 2), (120, 22, 2)] if quick else [(600, 14, 2), (600, 22, 2), (400, 30, 3), (300, 40, 3)]
+    plans = [(140, 14, 3), (100, 22, 3)] if quick else [(400, 14, 3), (400, 22, 3), (200, 30, 4), (120, 40, 4)]
     n = 0
     good = True
     for k, (num, ops, mp) in enumerate(plans):
